@@ -782,6 +782,11 @@ if __name__ == '__main__':
     from .. import env
     env.setup_import_paths()
     sys.setrecursionlimit(20000)
+    if '--json' in sys.argv:
+        import json
+        n = main(env.REPO, verbose=False)
+        print('JSON ' + json.dumps({'problems': n, 'info': {'scripts': len(SCRIPTS), 'frame_rule_cases': len(FRAME_CASES), 'symbolic_differential_cases': len(SYM_CASES) + len(LABEL_CASES)}}))
+        sys.exit(0 if not n else 3)
     n = main(env.REPO)
     for msg in n:
         print('  FAILED:', msg[:1500])
